@@ -2,7 +2,6 @@ package props
 
 import (
 	"fmt"
-	"os"
 	"reflect"
 
 	"github.com/kstenerud/go-concise-encoding/ce/events"
